@@ -1,0 +1,88 @@
+//! Verification hooks. Compiled only with `--cfg walrus_verif`; without that flag none of this exists.
+//!
+//! * I/O events: numbered per calling thread after `arm()`; the process can be made to abort right
+//!   before the k-th event (crash-point replay), and the kinds of the events are recorded.
+//! * Faults: the n-th occurrence of a fault site on the calling thread reports an injected failure.
+use std::cell::RefCell;
+
+#[derive(Default)]
+struct State {
+    armed: bool,
+    count: u64,
+    abort_before: u64,
+    trace: Vec<&'static str>,
+    faults: Vec<(&'static str, u64)>,
+    seen: Vec<(&'static str, u64)>,
+}
+
+thread_local! {
+    static STATE: RefCell<State> = RefCell::new(State::default());
+}
+
+/// Start counting I/O events on this thread; abort the process right before event `abort_before`
+/// (1-based, 0 = never).
+pub fn arm(abort_before: u64) {
+    STATE.with(|s| {
+        let mut s = s.borrow_mut();
+        s.armed = true;
+        s.count = 0;
+        s.abort_before = abort_before;
+        s.trace.clear();
+    });
+}
+
+/// Stop counting and return the kinds of the events seen since `arm`.
+pub fn disarm() -> Vec<&'static str> {
+    STATE.with(|s| {
+        let mut s = s.borrow_mut();
+        s.armed = false;
+        std::mem::take(&mut s.trace)
+    })
+}
+
+/// Make the `nth` (1-based) occurrence of fault site `kind` on this thread fail.
+pub fn set_fault(kind: &'static str, nth: u64) {
+    STATE.with(|s| {
+        let mut s = s.borrow_mut();
+        s.faults.retain(|(k, _)| *k != kind);
+        s.seen.retain(|(k, _)| *k != kind);
+        if nth > 0 {
+            s.faults.push((kind, nth));
+        }
+    });
+}
+
+pub(crate) fn io_event(kind: &'static str) {
+    STATE.with(|s| {
+        let mut s = s.borrow_mut();
+        if !s.armed {
+            return;
+        }
+        s.count += 1;
+        if s.abort_before != 0 && s.count == s.abort_before {
+            std::process::abort();
+        }
+        s.trace.push(kind);
+    });
+}
+
+pub(crate) fn fault(kind: &'static str) -> bool {
+    STATE.with(|s| {
+        let mut s = s.borrow_mut();
+        let nth = match s.faults.iter().find(|(k, _)| *k == kind) {
+            Some((_, n)) => *n,
+            None => return false,
+        };
+        let seen = match s.seen.iter_mut().find(|(k, _)| *k == kind) {
+            Some(e) => {
+                e.1 += 1;
+                e.1
+            }
+            None => {
+                s.seen.push((kind, 1));
+                1
+            }
+        };
+        seen == nth
+    })
+}
